@@ -35,6 +35,10 @@ def make_cases(rng, tier, n):
             cyclic = False
         c = gen.pipeline_project(rng, "dag-%d" % c_i, ns, cyclic=cyclic, tier=tier, sink=(rng.random() < 0.3 or force_sink))
         names = [sp for sp, st in c["stages"]]
+        if c_i % 4 == 1 and not c.get("via_symlink"):
+            # dud is invoked from a sub-directory; stage arguments are spelled relative to it
+            c["cwd"] = b"workdir/inner"
+            c["init"] += [("dir", b"workdir"), ("dir", b"workdir/inner")]
         ops = []
         if not cyclic:
             ops.append(("run", False, []))
